@@ -14,6 +14,8 @@ from bacpypes.bvllservice import AnnexJCodec
 
 # function code -> the class Annex J names for it (looked up by name, not via the registry)
 CLASSES = [getattr(B, name) for name in R.NAMES]
+TABLE_FNS = (R.WRITE_BDT, R.READ_BDT_ACK, R.READ_FDT_ACK)
+FIXED_FNS = (R.RESULT, R.READ_BDT, R.REGISTER_FD, R.READ_FDT, R.DELETE_FDT_ENTRY)
 
 
 # ------------------------------------------------------------------ capture around the codec
@@ -93,31 +95,61 @@ def direct_encode(msg):
 
 
 # ------------------------------------------------------------------ parameters and messages
-def draw_params(d, fn, n, paylo, payhi, fill=0):
-    """free parameters of function fn: table of n entries, NPDU of paylo..payhi octets
-    (fill > 0: only `fill` octets spread over the payload are free, the rest is a pattern)"""
+def filler_entry(i):
+    """concrete table entry i (all different): six octets, mask, ttl, remaining"""
+    six = bytes([10, i % 256, 255 - i % 256, (37 * i) % 256] + R.u16(47808 + i))
+    return six, (0xFFFFFFFF << (i % 33)) % 4294967296, 30 + 1000 * i, 65535 - 999 * i
+
+
+def draw_params(d, fn, n, paylo, payhi, fill=0, sym=None, forms=False, lens=None):
+    """free parameters of function fn: table of n entries (sym = None: every entry
+    symbolic, else only the entries whose index is in sym, the others are concrete
+    fillers), NPDU of paylo..payhi octets (fill > 0: only `fill` octets spread over the
+    payload - first, last, equidistant - are free, the rest is a pattern; lens: the length
+    is one of this list instead of payhi).  forms: also vary how the caller hands over a
+    single address / the NPDU."""
     p = {}
     if fn == R.RESULT:
         p['code'] = d.int(0, 0xFFFF, 'code')
     elif fn in R.HAS_BDT:
-        p['bdt'] = [(d.bytes(6, None, 'addr%d' % i), d.int(0, 0xFFFFFFFF, 'mask%d' % i)) for i in range(n)]
+        p['bdt'] = []
+        for i in range(n):
+            if sym is None or i in sym:
+                p['bdt'].append((d.bytes(6, None, 'addr%d' % i), d.int(0, 0xFFFFFFFF, 'mask%d' % i)))
+            else:
+                p['bdt'].append(filler_entry(i)[:2])
     elif fn == R.REGISTER_FD:
         p['ttl'] = d.int(0, 0xFFFF, 'ttl')
     elif fn == R.READ_FDT_ACK:
-        p['fdt'] = [(d.bytes(6, None, 'addr%d' % i), d.int(0, 0xFFFF, 'ttl%d' % i),
-                     d.int(0, 0xFFFF, 'remain%d' % i)) for i in range(n)]
+        p['fdt'] = []
+        for i in range(n):
+            if sym is None or i in sym:
+                p['fdt'].append((d.bytes(6, None, 'addr%d' % i), d.int(0, 0xFFFF, 'ttl%d' % i),
+                                 d.int(0, 0xFFFF, 'remain%d' % i)))
+            else:
+                f = filler_entry(i)
+                p['fdt'].append((f[0], f[2], f[3]))
     if fn in (R.FORWARDED_NPDU, R.DELETE_FDT_ENTRY):
-        p['addr'], p['addr_form'] = draw_single_addr(d)
+        if forms:
+            p['addr'], p['addr_form'] = draw_single_addr(d)
+        else:
+            p['addr'] = d.bytes(6, None, 'addr')
     if fn in R.HAS_NPDU:
         if fill:
+            if lens:
+                payhi = d.pick(lens, 'npdu_len')
             free = d.bytes(fill, None, 'npdu_free')
             body = [(7 * i + 3) % 256 for i in range(payhi)]
-            step = (payhi - 1) // (fill - 1) if fill > 1 else 0
-            for k in range(fill):
+            step = (payhi - 1) // (fill - 1)
+            for k in range(fill - 1):
                 body[k * step] = free[k]
+            body[payhi - 1] = free[fill - 1]
             p['npdu'] = bytes(body)
         else:
             p['npdu'] = d.bytes(paylo, payhi, 'npdu')
+        if forms:
+            # the library's own callers pass the NPDU as a PDU object (copy constructor form)
+            p['from_pdu'] = d.bool('from_pdu')
     return p
 
 
@@ -159,8 +191,11 @@ def build(fn, p):
             a.addrMask = mask
             bdt.append(a)
         return k(bdt)
+    npdu = p.get('npdu')
+    if p.get('from_pdu'):
+        npdu = PDU(npdu)
     if fn == R.FORWARDED_NPDU:
-        return k(mk_addr(p['addr'], p.get('addr_form', 'tuple')), p['npdu'])
+        return k(mk_addr(p['addr'], p.get('addr_form', 'tuple')), npdu)
     if fn == R.REGISTER_FD:
         return k(p['ttl'])
     if fn == R.READ_FDT_ACK:
@@ -175,7 +210,7 @@ def build(fn, p):
     if fn == R.DELETE_FDT_ENTRY:
         return k(mk_addr(p['addr'], p.get('addr_form', 'tuple')))
     if fn in R.HAS_NPDU:
-        return k(p['npdu'])
+        return k(npdu)
     return k()
 
 
@@ -240,20 +275,28 @@ def check_header(fn, octets, via):
 
 
 def check_body(fn, octets, p, via):
-    """the octets after the header are the Annex J fields of p, in order, and nothing else
-    (field by field: small solver queries, and the violation names the field)"""
-    off = 4
+    """the octets after the header are the Annex J fields of p, in order, and nothing else.
+    Compared in two pieces (fixed-layout fields, then the NPDU): one small solver query
+    each; only on a mismatch the fields are walked to name the first one that differs."""
     segs = R.fields(fn, p)
-    for i, (name, seg) in enumerate(segs):
-        if i == len(segs) - 1:
-            got = octets[off:]
-        else:
-            got = octets[off:off + len(seg)]
+    has_npdu = bool(segs) and segs[-1][0] == 'npdu'
+    head = b''
+    for name, seg in (segs[:-1] if has_npdu else segs):
+        head = head + seg
+    end = 4 + len(head)
+    if has_npdu:
+        ok = octets[4:end] == head and octets[end:] == segs[-1][1]
+    else:
+        ok = octets[4:] == head
+    if ok:
+        return
+    off = 4
+    for name, seg in segs:
+        got = octets[off:] if name == 'npdu' else octets[off:off + len(seg)]
         if got != seg:
             raise Violation("body-layout", fn=fn, field=name, offset=off, got=got, want=seg, via=via)
         off += len(seg)
-    if not segs and len(octets) != 4:
-        raise Violation("body-layout", fn=fn, field="(no fields)", offset=4, got=octets[4:], want=b'', via=via)
+    raise Violation("body-layout", fn=fn, field="(trailing octets)", offset=off, got=octets[off:], want=b'', via=via)
 
 
 # ------------------------------------------------------------------ harnesses
@@ -269,8 +312,8 @@ def check_body(fn, octets, p, via):
               "field width",
       stubs=["socket.inet_aton/inet_ntoa (opaque dotted quad of symbolic octets)"],
       assumes=[])
-def bvll_rt(d, fn, n=0, paylo=0, payhi=0, fill=0):
-    p = draw_params(d, fn, n, paylo, payhi, fill)
+def bvll_rt(d, fn, n=0, paylo=0, payhi=0, fill=0, sym=None, lens=None):
+    p = draw_params(d, fn, n, paylo, payhi, fill, sym, forms=True, lens=lens)
 
     # down through the real codec: what is emitted below it
     octets, exc = emit(build(fn, p))
@@ -307,41 +350,47 @@ def bvll_rt(d, fn, n=0, paylo=0, payhi=0, fill=0):
 
 @meta(bounds="one instance per function code; a well-formed message object (table of 0..2 entries, NPDU of 0..3 "
              "octets, parameters symbolic) is tampered with before it is sent: declared bvlciLength replaced by "
-             "any 16-bit value, or its table / NPDU replaced after construction by one of another size (0..3 "
-             "entries, 0..4 octets)",
+             "any 16-bit value, and/or its table / NPDU replaced after construction by one of another size "
+             "(0..3 entries, 0..4 octets); sent through AnnexJCodec.indication and through the class encode + "
+             "BVLPDU.encode",
       outside="other ways of corrupting a message object (wrong attribute types, tables with non-address members)",
       stubs=["socket.inet_aton/inet_ntoa (opaque dotted quad of symbolic octets)"],
       assumes=[])
 def bvll_length_guard(d, fn):
-    n = d.index(3, 'n') if fn in R.HAS_BDT or fn == R.READ_FDT_ACK else 0
-    p = draw_params(d, fn, n, 0, 3)
-    x = build(fn, p)
-    tamper = d.pick(['declared', 'content', 'both'], 'tamper')
-    if tamper in ('content', 'both'):
-        m = d.index(4, 'n2') if fn in R.HAS_BDT or fn == R.READ_FDT_ACK else 0
-        p2 = draw_params(d, fn, m, 0, 4)
-        x2 = build(fn, p2)
+    sized = fn in TABLE_FNS or fn in R.HAS_NPDU
+    n = d.index(3, 'n') if fn in TABLE_FNS else 0
+    x = build(fn, draw_params(d, fn, n, 0, 3))
+    tamper = d.pick(['declared', 'content', 'both'] if sized else ['declared'], 'tamper')
+    if tamper != 'declared':
+        m = d.index(4, 'n2') if fn in TABLE_FNS else 0
+        x2 = build(fn, draw_params(d, fn, m, 0, 4))
         if fn in R.HAS_BDT:
             x.bvlciBDT = x2.bvlciBDT
         elif fn == R.READ_FDT_ACK:
             x.bvlciFDT = x2.bvlciFDT
-        elif fn in R.HAS_NPDU:
-            x.pduData = x2.pduData
         else:
-            # fixed-size functions have no content that can change size
-            d.assume(tamper == 'both')
-    if tamper in ('declared', 'both'):
+            x.pduData = x2.pduData
+    if tamper != 'content':
         x.bvlciLength = d.int(0, 0xFFFF, 'declared')
+    # either nothing is sent (an exception), or what is sent has a true header
     octets, exc = emit(x)
     if exc is None:
-        # something was sent: then it must be a frame whose length field is true
         check_header(fn, octets, "codec")
-    d.note(tamper=tamper, emitted=exc is None)
+    o2, exc2 = direct_encode(x)
+    if exc2 is None:
+        check_header(fn, o2, "direct")
+    d.note(tamper=tamper, emitted=exc is None, emitted_direct=exc2 is None)
+    d.reach()
 
-    # BVLPDU level: the declared length is verified against the content at encode
-    data = d.bytes(0, 4, 'data')
+
+@meta(bounds="a BVLPDU with any content of 0..maxlen octets, any function octet 0..255 and any declared "
+             "bvlciLength 0..65535: BVLPDU.encode emits exactly when the declared length is content + 4, and then "
+             "the header is 0x81, function, that length",
+      outside="content longer than maxlen", stubs=[], assumes=[])
+def bvlpdu_length_guard(d, maxlen):
+    data = d.bytes(0, maxlen, 'data')
     f = d.int(0, 255, 'function')
-    declared = d.int(0, 0xFFFF, 'declared2')
+    declared = d.int(0, 0xFFFF, 'declared')
     b = B.BVLPDU(data)
     b.bvlciFunction = f
     b.bvlciLength = declared
@@ -356,7 +405,7 @@ def bvll_length_guard(d, fn):
     if declared != len(data) + 4:
         raise Violation("inconsistent-emitted", declared=declared, data=data, got=bytes(pdu.pduData))
     if bytes(pdu.pduData) != bytes([0x81, f] + R.u16(len(data) + 4)) + data:
-        raise Violation("bvlpdu-layout", got=bytes(pdu.pduData))
+        raise Violation("bvlpdu-layout", data=data, function=f, got=bytes(pdu.pduData))
     d.reach()
 
 
@@ -496,32 +545,40 @@ def ip_forms(d):
 
 
 # ------------------------------------------------------------------ instances
-TABLE_FNS = (R.WRITE_BDT, R.READ_BDT_ACK, R.READ_FDT_ACK)
-FIXED_FNS = (R.RESULT, R.READ_BDT, R.REGISTER_FD, R.READ_FDT, R.DELETE_FDT_ENTRY)
-
-
 def instances(tier):
     q = tier == "quick"
     out = []
     b = 60 if q else 300
+
+    def rt(fn, what, budget=b, **params):
+        out.append(Inst(bvll_rt, dict(fn=fn, **params), budget=budget, path_timeout=budget,
+                        label="fn=%d %s%s" % (fn, R.NAMES[fn], " " + what if what else "")))
     for fn in FIXED_FNS:
-        out.append(Inst(bvll_rt, dict(fn=fn), budget=b, label="fn=%d %s" % (fn, R.NAMES[fn])))
+        rt(fn, "")
     for fn in TABLE_FNS:
-        for n in ([0, 1, 2] if q else [0, 1, 2, 3, 40]):
-            out.append(Inst(bvll_rt, dict(fn=fn, n=n), budget=b if n < 40 else 600,
-                            label="fn=%d %s n=%d" % (fn, R.NAMES[fn], n)))
+        for n in ([0, 1, 2] if q else [0, 1, 2, 3, 4, 8]):
+            rt(fn, "n=%d" % n, n=n)
+        if q:
+            rt(fn, "n=40 (4 symbolic)", n=40, sym=[0, 1, 20, 39])
+        else:
+            rt(fn, "n=40 (12 symbolic)", n=40, sym=[0, 1, 2, 3, 9, 10, 19, 20, 30, 37, 38, 39])
     for fn in R.HAS_NPDU:
-        out.append(Inst(bvll_rt, dict(fn=fn, paylo=0, payhi=6), budget=b,
-                        label="fn=%d %s npdu=0..6" % (fn, R.NAMES[fn])))
+        rt(fn, "npdu=0..%d" % (6 if q else 16), paylo=0, payhi=6 if q else 16)
+        # total frame length crossing 255/256 (the first length octet comes into use)
+        if q:
+            rt(fn, "npdu in 245,246,251,252 (8 symbolic)", lens=[245, 246, 251, 252], fill=8)
+        else:
+            rt(fn, "npdu=240..256", paylo=240, payhi=256)
         for ln in (1400, 1497):
-            out.append(Inst(bvll_rt, dict(fn=fn, paylo=ln, payhi=ln, fill=8 if q else 0), budget=b,
-                            label="fn=%d %s npdu=%d" % (fn, R.NAMES[fn], ln)))
+            k = 8 if q else 96
+            rt(fn, "npdu=%d (%d symbolic)" % (ln, k), paylo=ln, payhi=ln, fill=k)
     for fn in range(12):
         out.append(Inst(bvll_length_guard, dict(fn=fn), budget=b, label="fn=%d %s" % (fn, R.NAMES[fn])))
+    out.append(Inst(bvlpdu_length_guard, dict(maxlen=16 if q else 300), budget=b))
+    n = 26 if q else 46
     for part in range(13):
-        n = 8 if q else 12
         out.append(Inst(bvll_decode_total, dict(n=n, part=part), budget=b,
-                        label="n=%d,fn=%s" % (n, part if part < 12 else "other")))
+                        label="n=%d,fn=%s" % (n, "%d %s" % (part, R.NAMES[part]) if part < 12 else "other")))
     out.append(Inst(bvll_header_guard, dict(lo=0, hi=64 if q else 1600), budget=b))
     out.append(Inst(ip_forms, {}, budget=b))
     return out
